@@ -155,6 +155,10 @@ pub assume_specification<'a, T: Copy> [std::option::Option::<&'a T>::copied] (o:
 pub assume_specification<T, A: std::alloc::Allocator> [std::collections::VecDeque::<T, A>::is_empty] (q: &std::collections::VecDeque<T, A>) -> (r: bool)
     ensures r == (q@.len() == 0);
 
+/// core::mem::replace (not used by the code under contract today; present so that a change introducing it is decided, not undecided)
+pub assume_specification<T> [core::mem::replace::<T>] (dest: &mut T, src: T) -> (r: T)
+    ensures *final(dest) == src, r == *old(dest);
+
 // serial / wrapping arithmetic on 32-bit sequence numbers (RFC 1982 as used by AMQP 1.0)
 pub open spec fn add32(a: u32, b: int) -> u32 { ((a as int + b) % 0x1_0000_0000) as u32 }
 pub open spec fn sub32(a: u32, b: u32) -> u32 { ((a as int - b as int) % 0x1_0000_0000) as u32 }
